@@ -2,7 +2,10 @@ package main
 
 import (
 	"fmt"
+	"strings"
 	"time"
+
+	"github.com/pdok/texel/snap"
 
 	"github.com/pdok/texel/tms20"
 
@@ -19,6 +22,9 @@ func runC06(c *hc.Ctx) error {
 	c.Sum.Oracle = "SnapPolygon on an in-grid polygon returns normally (no panic of any kind, watchdog 20 s) and within c*n^2 time"
 	c.Sum.Partial = "wall-clock time, memory, Go slice aliasing and stack depth cannot be exhibited by the model; they are measured by the harness only"
 	grids := syntheticGrids()
+	if err := runCorpus(c, evalC06); err != nil {
+		return err
+	}
 	n := c.N(1800, 60000)
 	if c.Search {
 		n *= 8
@@ -27,37 +33,17 @@ func runC06(c *hc.Ctx) error {
 		g := grids[c.Rng.Intn(len(grids))]
 		w := randWindow(c.Rng, g, 8)
 		poly, kind := genRawPolygon(c.Rng, w)
-		if c.Rng.Intn(4) == 0 {
+		switch {
+		case c.Rng.Intn(4) == 0:
 			poly, kind = genValidPolygon(c.Rng, w)
+		case c.Rng.Intn(6) == 0:
+			poly, kind = [][]Pt{genPeriodic(c.Rng, w)}, "periodic word"
 		}
 		if !g.inGrid(poly) {
 			i--
 			continue
 		}
-		ids := randIDs(c.Rng, g)
-		cfg := randCfg(c.Rng)
-		r := runSnap(g, poly, ids, cfg, 20*time.Second)
-		c.Sum.Evaluations++
-		c.Count("kind " + kind)
-		nv := 0
-		for _, ring := range poly {
-			nv += len(ring)
-		}
-		c.Count(fmt.Sprintf("vertices %02d-%02d", nv/5*5, nv/5*5+4))
-		if collapses(g, poly, r) {
-			c.Nontrivial(fmt.Sprint(g.Name, poly, ids, cfg))
-		}
-		if r.Panic != "" {
-			c.Count("panic " + r.Panic)
-			c.Violate(hc.Violation{What: "SnapPolygon panicked / hung on an in-grid polygon: " + r.Panic, Input: caseJSON(g, poly, ids, cfg, nil), Observed: r.PanicMsg})
-		}
-		if lim := time.Duration(50+nv*nv) * time.Millisecond; r.Dur > lim {
-			c.Violate(hc.Violation{What: "SnapPolygon slower than c*n^2", Input: caseJSON(g, poly, ids, cfg, nil), Observed: r.Dur.String(), Expected: "<= " + lim.String()})
-		}
-		c.Case("SnapC ("+snapCaseTerm(g, poly, ids, cfg, r)+")", caseJSON(g, poly, ids, cfg, r))
-		if i < 3 {
-			c.Sample(caseJSON(g, poly, ids, cfg, r))
-		}
+		evalC06(c, g, poly, kind, randIDs(c.Rng, g), randCfg(c.Rng))
 	}
 	// component level: kmpDeduplicate on EVERY chain over 3 centres up to length 10 and 4 centres up to length 8
 	// (thorough: 4 centres up to length 10, 5 up to 9), no equal neighbours, first != last
@@ -107,6 +93,50 @@ func runC06(c *hc.Ctx) error {
 }
 
 func loadSet(name string) (tms20.TileMatrixSet, error) { return tms20.LoadEmbeddedTileMatrixSet(name) }
+
+// f13Attributable: known finding F13 — kmpDeduplicate records overlapping removal ranges and RemoveSequences
+// (or the restart index) goes out of bounds: the panic is a slice-bounds / index panic raised under
+// kmpDeduplicate, and some routed chain passes a pixel centre at least five times.
+func f13Attributable(g *Grid, poly [][]Pt, ids []int, r *Result) bool {
+	if r.Panic != "SliceBounds" && r.Panic != "IndexOutOfRange" {
+		return false
+	}
+	if !strings.Contains(r.Stack, "snap.kmpDeduplicate") {
+		return false
+	}
+	for _, id := range ids {
+		if rt, err := implRouting(g, poly, g.Level(id)); err == nil && rt.maxVisits() >= 5 {
+			return true
+		}
+	}
+	return false
+}
+
+const f13What = "kmpDeduplicate records overlapping removal ranges on long periodic chains (a centre passed five or more times): RemoveSequences slices out of bounds and SnapPolygon panics (F13)"
+
+func evalC06(c *hc.Ctx, g *Grid, poly [][]Pt, kind string, ids []int, cfg snap.Config) {
+	r := runSnap(g, poly, ids, cfg, 20*time.Second)
+	c.Sum.Evaluations++
+	c.Count("kind " + kind)
+	nv := nVerts(poly)
+	c.Count(fmt.Sprintf("vertices %02d-%02d", nv/5*5, nv/5*5+4))
+	if collapses(g, poly, r) {
+		c.Nontrivial(fmt.Sprint(g.Name, poly, ids, cfg))
+	}
+	if r.Panic != "" {
+		c.Count("panic " + r.Panic)
+		v := hc.Violation{What: "SnapPolygon panicked / hung on an in-grid polygon: " + r.Panic, Input: caseJSON(g, poly, ids, cfg, nil), Observed: r.PanicMsg}
+		if f13Attributable(g, poly, ids, r) {
+			v.KnownFinding, v.What = "F13", f13What
+		}
+		c.Violate(v)
+	}
+	if lim := time.Duration(50+nv*nv) * time.Millisecond; r.Dur > lim {
+		c.Violate(hc.Violation{What: "SnapPolygon slower than c*n^2", Input: caseJSON(g, poly, ids, cfg, nil), Observed: r.Dur.String(), Expected: "<= " + lim.String()})
+	}
+	c.Case("SnapC ("+snapCaseTerm(g, poly, ids, cfg, r)+")", caseJSON(g, poly, ids, cfg, r))
+	c.Sample(caseJSON(g, poly, ids, cfg, r))
+}
 
 // collapses: the output has fewer vertices than the input at some level, or a level is missing / has points-and-lines.
 func collapses(g *Grid, poly [][]Pt, r *Result) bool {
